@@ -290,6 +290,8 @@ package verifier
 //@ at call verifyAuthenticTimestamp: assert[C02.segment] segWF(outcome) && (sameobj(outcome.VerificationResults, old(outcome.VerificationResults)) || fresh(outcome.VerificationResults)) && len(outcome.VerificationResults) == 3 && outcome.VerificationResults[0].Type == trustpolicy.TypeIntegrity && outcome.VerificationResults[1].Type == trustpolicy.TypeAuthenticity && outcome.VerificationResults[2].Type == trustpolicy.TypeExpiry
 //@ at call (*verifier).verifyRevocation: assert[C02.segment] segWF(outcome) && (sameobj(outcome.VerificationResults, old(outcome.VerificationResults)) || fresh(outcome.VerificationResults)) && len(outcome.VerificationResults) == 4 && outcome.VerificationResults[0].Type == trustpolicy.TypeIntegrity && outcome.VerificationResults[1].Type == trustpolicy.TypeAuthenticity && outcome.VerificationResults[2].Type == trustpolicy.TypeExpiry && outcome.VerificationResults[3].Type == trustpolicy.TypeAuthenticTimestamp
 //@ at call executePlugin: assert[C02.segment] segWF(outcome) && (sameobj(outcome.VerificationResults, old(outcome.VerificationResults)) || fresh(outcome.VerificationResults)) && len(outcome.VerificationResults) >= 4 && outcome.VerificationResults[0].Type == trustpolicy.TypeIntegrity && outcome.VerificationResults[1].Type == trustpolicy.TypeAuthenticity && outcome.VerificationResults[2].Type == trustpolicy.TypeExpiry && outcome.VerificationResults[3].Type == trustpolicy.TypeAuthenticTimestamp && (outcome.VerificationLevel.Enforcement[trustpolicy.TypeRevocation] == trustpolicy.ActionSkip ==> len(outcome.VerificationResults) == 4)
+//@ at call executePlugin: assert[C02.capability-complete,C04.capability-complete] (hasCap(pluginCapabilities, pluginframework.CapabilityTrustedIdentityVerifier) ==> hasCap(arg2, pluginframework.CapabilityTrustedIdentityVerifier)) && (outcome.VerificationLevel.Enforcement[trustpolicy.TypeRevocation] != trustpolicy.ActionSkip && hasCap(pluginCapabilities, pluginframework.CapabilityRevocationCheckVerifier) ==> hasCap(arg2, pluginframework.CapabilityRevocationCheckVerifier))
+//@ at call processPluginResponse: assert[C02.capability-complete,C04.capability-complete] arg0 == capabilitiesToVerify
 //@ at call executePlugin: assert[C02.capability-routing] arg1 == installedPlugin && forall(c, 0, len(arg2), hasCap(pluginCapabilities, arg2[c]) && !(outcome.VerificationLevel.Enforcement[trustpolicy.TypeRevocation] == trustpolicy.ActionSkip && arg2[c] == pluginframework.CapabilityRevocationCheckVerifier)) && arg4 == trustedIdentities && arg5 == pluginConfig
 //@ loop 1 invariant newsince(pluginCapabilities) && forall(c, 0, len(pluginCapabilities), pluginCapabilities[c] == pluginframework.CapabilityRevocationCheckVerifier || pluginCapabilities[c] == pluginframework.CapabilityTrustedIdentityVerifier)
 //@ loop 3 invariant installedPlugin == nil && forall(i, 0, rangeindex+1, !extAttrs(outcome)[i].Critical)
@@ -299,6 +301,9 @@ package verifier
 //@ loop 2 invariant sameobj(outcome.VerificationResults, old(outcome.VerificationResults)) || fresh(outcome.VerificationResults)
 //@ loop 2 invariant len(outcome.VerificationResults) >= 4 && outcome.VerificationResults[0].Type == trustpolicy.TypeIntegrity && outcome.VerificationResults[1].Type == trustpolicy.TypeAuthenticity && outcome.VerificationResults[2].Type == trustpolicy.TypeExpiry && outcome.VerificationResults[3].Type == trustpolicy.TypeAuthenticTimestamp
 //@ loop 2 invariant outcome.VerificationLevel.Enforcement[trustpolicy.TypeRevocation] == trustpolicy.ActionSkip ==> len(outcome.VerificationResults) == 4
+//@ pure func hasCapUpTo(caps []pluginframework.Capability, n int, x pluginframework.Capability) bool = exists(i, 0, n, caps[i] == x)
+//@ loop 2 invariant hasCapUpTo(pluginCapabilities, rangeindex+1, pluginframework.CapabilityTrustedIdentityVerifier) ==> hasCap(capabilitiesToVerify, pluginframework.CapabilityTrustedIdentityVerifier)
+//@ loop 2 invariant outcome.VerificationLevel.Enforcement[trustpolicy.TypeRevocation] != trustpolicy.ActionSkip && hasCapUpTo(pluginCapabilities, rangeindex+1, pluginframework.CapabilityRevocationCheckVerifier) ==> hasCap(capabilitiesToVerify, pluginframework.CapabilityRevocationCheckVerifier)
 //@ loop 2 invariant newsince(capabilitiesToVerify) && forall(c, 0, len(capabilitiesToVerify), hasCap(pluginCapabilities, capabilitiesToVerify[c]) && !(outcome.VerificationLevel.Enforcement[trustpolicy.TypeRevocation] == trustpolicy.ActionSkip && capabilitiesToVerify[c] == pluginframework.CapabilityRevocationCheckVerifier))
 
 // ---- C01 / C12: the two verification entry points ----
